@@ -22,12 +22,12 @@ SCOPE = {
              "difference/transitive/subType with field and variable leaves, placed in a let, a requires, a reaches "
              "('->' and '+>') and as the middle one of three reaches targets; every step type x 0-2 tags x every CIA "
              "subset x ttc x reaches form; 10x10 multiplicity pairs in two spellings; 11 meta strings x 4 places; "
-             "abstract x extends; + 2500 seeded random specifications (<=3 categories, <=7 assets, expressions up to "
+             "abstract x extends; 600 random field expressions of depth 3-4; + 1500 seeded random specifications (<=3 categories, <=7 assets, expressions up to "
              "depth 4, TTC up to depth 3) each under 2 of 11 source layouts (1-4 files, sub-directories, repeated "
              "/ chained / diamond includes) and a random spelling style; + coreLang 1.0.0 (single file, two split "
              "layouts, and through LanguageGraph.from_mal_spec)",
     "thorough": "as quick, plus every TTC tree with 4 operators (seeded 30% sample), a seeded sample of 20000 field "
-                "expressions of depth 3-4, 20000 random specifications x 3 layouts",
+                "expressions of depth 3-4, 20000 more random specifications x 3 layouts",
 }
 EXHAUSTIVE = {"quick": False, "thorough": False}
 RULE = ("case = (specification in output format, source layout, spelling style); the specification is printed, "
@@ -55,10 +55,7 @@ def _case(spec, layout=("single", 0), style=0, group=""):
     return {"kind": "spec", "group": group, "spec": spec, "layout": list(layout), "style": style}
 
 
-def cases(tier, seed):
-    rnd = random.Random(seed)
-    thorough = tier == "thorough"
-    # the expensive ones first so that they overlap with the rest
+def _g_fixed(seed):
     yield {"kind": "corelang", "layout": ["single", 0], "style": 0, "via": "compiler"}
     yield {"kind": "corelang", "layout": ["single", 0], "style": 0, "via": "language-graph"}
     yield {"kind": "corelang", "layout": ["two", seed + 1001], "style": 0, "via": "compiler"}
@@ -69,9 +66,8 @@ def cases(tier, seed):
     for k in L.LAYOUT_KINDS:
         yield {"kind": "mini", "layout": [k, 0], "style": 0, "via": "compiler"}
 
-    # --- TTC arithmetic -------------------------------------------------------------------------
-    for t in L.enum_ttc(3):
-        yield _case(L.spec_with_ttc(t), group="ttc")
+
+def _g_ttc_named():
     named = [
         L.binop("multiplication", L.binop("multiplication", L.fn("Exponential", 0.1), L.num(2)), L.num(3)),
         L.binop("multiplication", L.binop("division", L.fn("a1"), L.fn("b1")), L.fn("c1")),
@@ -83,53 +79,10 @@ def cases(tier, seed):
     for t in named:
         for st in (0, 1, 2, 3):
             yield _case(L.spec_with_ttc(t), style=st, group="ttc-named")
-    if thorough:
-        for t in L.enum_ttc(4):
-            if L.expr_depth(t) >= 1 and sum(1 for _ in _nodes(t)) == 9 and rnd.random() < 0.3:
-                yield _case(L.spec_with_ttc(t), group="ttc4")
 
-    # --- step expressions ------------------------------------------------------------------------
-    exprs = [L.rename_leaves(e) for e in L.enum_exprs(2)]
-    for e in exprs:
-        for where in ("let", "reaches"):
-            yield _case(L.spec_with_expr(e, where), group="expr-" + where)
-    for e in exprs:
-        where = rnd.choice(("requires", "reaches-ext", "reaches-second"))
-        if L.expr_depth(e) <= 1:
-            for where in ("requires", "reaches-ext", "reaches-second"):
-                yield _case(L.spec_with_expr(e, where), group="expr-" + where)
-        else:
-            yield _case(L.spec_with_expr(e, where), group="expr-" + where)
-    fields = ["f1", "g2", "hh"]; variables = ["v1", "w2"]; types = ["T1", "Sub"]
-    for _ in range(20000 if thorough else 600):
-        e = L.gen_expr(rnd, rnd.choice((3, 4)), fields, variables, types)
-        yield _case(L.spec_with_expr(e, rnd.choice(("let", "requires", "reaches", "reaches-ext", "reaches-second"))),
-                    group="expr-random")
 
-    # --- steps -----------------------------------------------------------------------------------
-    for ty in L.STEP_SYMBOL:
-        for ntags in (0, 1, 2):
-            for bits in range(0, 8):
-                for ttc in (None, L.fn("Enabled"), L.fn("Exponential", 0.1)):
-                    for reach in (None, True, False):
-                        risk = None if bits == 0 else L.mk_risk(bits & 1, bits & 2, bits & 4)
-                        req = [L.field("f1"), L.binop("collect", L.field("f2"), L.field("f3"))] if ty in ("exist", "notExist") else None
-                        s = L.mk_step("s", ty, tags=["hidden", "t2"][:ntags], risk=risk, ttc=ttc, requires=req,
-                                      meta={"user": "u"} if bits & 1 else {},
-                                      reaches=None if reach is None else [L.astep("t"), L.binop("collect", L.field("f"), L.astep("u"))],
-                                      overrides=bool(reach))
-                        other = L.mk_step("t", "and")
-                        yield _case(L.mk_spec([L.mk_asset("Host", steps=[s, other])]), style=bits, group="step")
-
-    # --- multiplicities --------------------------------------------------------------------------
-    for lm in L.MULTS:
-        for rm in L.MULTS:
-            for st in (0, 11):
-                spec = L.mk_spec([L.mk_asset("Host"), L.mk_asset("Net")],
-                                 [L.mk_assoc("Conn", "Host", "hosts", lm, "Net", "nets", rm)])
-                yield _case(spec, style=st, group="mult")
-
-    # --- meta strings, abstract / extends, defines -----------------------------------------------
+def _g_small():
+    # meta strings in the four places, abstract / extends, defines only, empty category, interleaved categories
     for s in L.META_STRINGS:
         for place in range(4):
             m = {"user": s}
@@ -148,16 +101,81 @@ def cases(tier, seed):
     yield _case(L.mk_spec([], categories=[{"name": "Empty", "meta": {}}]), group="empty")
     yield _case(L.mk_spec([L.mk_asset("X1", category="B1"), L.mk_asset("X2", category="A1"), L.mk_asset("X3", category="B1")],
                           categories=[{"name": "A1", "meta": {}}, {"name": "B1", "meta": {"user": "m"}}]), group="interleaved")
+    for lm in L.MULTS:
+        for rm in L.MULTS:
+            for st in (0, 11):
+                spec = L.mk_spec([L.mk_asset("Host"), L.mk_asset("Net")],
+                                 [L.mk_assoc("Conn", "Host", "hosts", lm, "Net", "nets", rm)])
+                yield _case(spec, style=st, group="mult")
 
-    # --- random specifications x layouts x styles ---------------------------------------------------
+
+def _g_steps():
+    for ty in L.STEP_SYMBOL:
+        for ntags in (0, 1, 2):
+            for bits in range(0, 8):
+                for ttc in (None, L.fn("Enabled"), L.fn("Exponential", 0.1)):
+                    for reach in (None, True, False):
+                        risk = None if bits == 0 else L.mk_risk(bits & 1, bits & 2, bits & 4)
+                        req = [L.field("f1"), L.binop("collect", L.field("f2"), L.field("f3"))] if ty in ("exist", "notExist") else None
+                        s = L.mk_step("s", ty, tags=["hidden", "t2"][:ntags], risk=risk, ttc=ttc, requires=req,
+                                      meta={"user": "u"} if bits & 1 else {},
+                                      reaches=None if reach is None else [L.astep("t"), L.binop("collect", L.field("f"), L.astep("u"))],
+                                      overrides=bool(reach))
+                        other = L.mk_step("t", "and")
+                        yield _case(L.mk_spec([L.mk_asset("Host", steps=[s, other])]), style=bits, group="step")
+
+
+def _g_exprs(rnd):
+    exprs = [L.rename_leaves(e) for e in L.enum_exprs(2)]
+    for e in exprs:
+        for where in ("let", "reaches"):
+            yield _case(L.spec_with_expr(e, where), group="expr-" + where)
+    for e in exprs:
+        if L.expr_depth(e) <= 1:
+            for where in ("requires", "reaches-ext", "reaches-second"):
+                yield _case(L.spec_with_expr(e, where), group="expr-" + where)
+        else:
+            where = rnd.choice(("requires", "reaches-ext", "reaches-second"))
+            yield _case(L.spec_with_expr(e, where), group="expr-" + where)
+
+
+def _g_random_specs(rnd, n, extra_layouts, offset=0):
     kinds = [k for k in L.LAYOUT_KINDS if k != "single"]
-    n = 20000 if thorough else 2500
-    for i in range(n):
-        s = rnd.randrange(1 << 30)
-        spec = L.gen_spec(s, size=rnd.choice((1, 2, 2, 3)), depth=rnd.choice((2, 3, 4)))
-        ks = ["single"] + [kinds[(i + j) % len(kinds)] for j in range(2 if thorough else 1)]
-        for k in ks:
+    for i in range(offset, offset + n):
+        spec = L.gen_spec(rnd.randrange(1 << 30), size=rnd.choice((1, 2, 2, 3)), depth=rnd.choice((2, 3, 4)))
+        for k in ["single"] + [kinds[(i + j) % len(kinds)] for j in range(extra_layouts)]:
             yield _case(spec, layout=(k, rnd.randrange(1000)), style=rnd.randrange(1, 1000), group="random")
+
+
+def _g_random_exprs(rnd, n):
+    fields = ["f1", "g2", "hh"]; variables = ["v1", "w2"]; types = ["T1", "Sub"]
+    for _ in range(n):
+        e = L.gen_expr(rnd, rnd.choice((3, 4)), fields, variables, types)
+        yield _case(L.spec_with_expr(e, rnd.choice(("let", "requires", "reaches", "reaches-ext", "reaches-second"))),
+                    group="expr-random")
+
+
+def cases(tier, seed):
+    """cheap, broad groups first: when the wall-clock budget cuts the run short on a loaded machine, what is lost
+    is the tail of the random part"""
+    rnd = random.Random(seed)
+    thorough = tier == "thorough"
+    yield from _g_fixed(seed)
+    yield from _g_ttc_named()
+    yield from _g_small()
+    yield from _g_steps()
+    for t in L.enum_ttc(3):
+        yield _case(L.spec_with_ttc(t), group="ttc")
+    yield from _g_random_specs(rnd, 500, 1)
+    yield from _g_exprs(rnd)
+    yield from _g_random_exprs(rnd, 600)
+    yield from _g_random_specs(rnd, 1000, 1, offset=500)
+    if thorough:
+        for t in L.enum_ttc(4):
+            if sum(1 for _ in _nodes(t)) == 9 and rnd.random() < 0.3:
+                yield _case(L.spec_with_ttc(t), group="ttc4")
+        yield from _g_random_exprs(rnd, 20000)
+        yield from _g_random_specs(rnd, 20000, 2, offset=1500)
 
 
 def _nodes(e):
@@ -176,21 +194,22 @@ def _has_term_chain(t):
     return False
 
 
-def _signature(diff, spec):
+def _signature(diff, spec=None):
+    """pattern of a difference: the path down to the attribute of the declaration that differs, without indices"""
     path = diff[0]
-    gp = L.generic_path(path)
-    for key in ("ttc", "reaches", "requires", "variables", "tags", "risk", "meta"):
-        tag = "attackSteps." + key if key != "variables" else "variables"
-        if tag in gp:
-            gp = gp[:gp.index(tag) + len(tag)]
+    parts = L.generic_path(path).split(".")
+    for i, p in enumerate(parts):
+        if p in ("ttc", "reaches", "requires", "variables", "tags", "risk", "meta", "leftMultiplicity",
+                 "rightMultiplicity", "defines"):
+            parts = parts[:i + 1]
             break
-    if gp.endswith("attackSteps.ttc"):
-        # which step? recover from the path
+    gp = ".".join(parts)
+    if gp.endswith("attackSteps.ttc") and spec is not None:
         try:
             ai = int(path.split("assets[")[1].split("]")[0]); si = int(path.split("attackSteps[")[1].split("]")[0])
             t = spec["assets"][ai]["attackSteps"][si]["ttc"]
             return gp + (":term-with-3+-factors" if _has_term_chain(t) else ":other")
-        except Exception:
+        except (IndexError, ValueError, KeyError, TypeError):
             return gp
     return gp
 
@@ -255,7 +274,7 @@ def run_case(recipe):
             r.check("C04.include-invariant", d is None, FN_VISITOR + ".visitMal",
                     "" if d is None else "layout %s %s: result differs from the single-file result at %s: single %s, split %s"
                     % (lkind, json.dumps(layout["files"])[:300], d[0], d[1], d[2]),
-                    None if d is None else "%s:%s" % (lc, L.generic_path(d[0])))
+                    None if d is None else "%s:%s" % (lc, _signature(d)))
             if recipe["kind"] == "corelang":
                 d2 = L.deep_diff(L.unordered(spec) if not layout["ordered"] else spec,
                                  L.unordered(out2) if not layout["ordered"] else out2, "spec")
